@@ -113,7 +113,7 @@ def replay_one(tx):
             sess.blk = nf.blocks["blk"]
             sess.host = sess.blk.data_arrays["host"]
             sess.host_b = sess.blk.data_arrays["host"]
-            sess.targets = {t: sess.blk.data_arrays[t] for t in opts["ranks"]}
+            sess.targets = dimlink._fresh_targets(sess.blk, opts["ranks"])
             sess.kept = []
         must_fail = act["out"] == "ok" and _changes(tx, mod)
         exc = sess.apply(act, tx["to"]) if mod == "frame" else apply_(act)
